@@ -368,7 +368,9 @@ theorem out_of_range_fn_stale (w0 : World) (ops ops2 : List Op) (j : Nat) (h0 : 
 
 `Model/WorldSched.lean`: the socket thread executes complete operations, the clock thread executes
 one tick as a sequence of atomic actions (read `running` | locked section | `forward_msg` begin |
-one recipient | stale report | … | `clck_src` increment).  A schedule `acts : List Act` is ANY
+the reads for one recipient | `handle_data_msg` of that recipient | stale report | … | `clck_src`
+increment) — every boundary at which `harness/py/sched_harness.py` can park the real clock thread is a
+boundary between two of these actions.  A schedule `acts : List Act` is ANY
 interleaving of socket operations with clock-thread actions (any number of socket operations between
 any two clock actions; the property's "one arrival / power command racing one tick" are the
 schedules with one socket action).  `sghost s0 acts j` is the bookkeeping of transceiver `j`: `g`
@@ -523,6 +525,88 @@ theorem poweroff_does_not_unemit (s0 : State) (acts : List Act) (j : Nat) (h0 : 
     rw [sghost_snoc]
     exact ⟨p, rest, h1, h2, h4, h3⟩
 
+/-- `handle_only_after_reads` — the `fwd-read` action of the recipient loop of `forward_msg(j, msg)`
+for recipient `k`.  It changes nothing but the clock thread's control state, and the thread goes on to
+`handle_data_msg` of `k` (control state `hdl … k rx …`) iff, at this moment, `k` is another
+transceiver than the sender, `k` is running, its Rx frequency for the burst's frame (hopping resolved)
+is the sender's Tx frequency, and `rx` is the burst translated with the header version `k` has at
+this moment (`rx.ver`), for the burst's own frame number. -/
+theorem handle_only_after_reads (s : State) (fn j mfn k : Nat) (msg : Trxd.TxMsg) (txFreq : Option Int)
+    (ks : List Nat) (emit drop : List Trxd.TxMsg) (js : List Nat)
+    (hpc : s.pc = Pc.fwd fn j msg mfn txFreq (k :: ks) emit drop js) :
+    (clockStep s).w = s.w ∧ (clockStep s).out = s.out ∧ (clockStep s).stale = s.stale ∧
+    (∀ rx, (clockStep s).pc = Pc.hdl fn j msg mfn txFreq k rx ks emit drop js ↔
+      (k ≠ j ∧ ∃ trx, s.w.trxs[k]? = some trx ∧ trx.running = true ∧ trx.getRxFreq mfn = .ok txFreq ∧
+        msg.trans (some trx.hdrVer) = .ok rx)) ∧
+    (∀ rx, (clockStep s).pc = Pc.hdl fn j msg mfn txFreq k rx ks emit drop js →
+      ∃ trx, s.w.trxs[k]? = some trx ∧ rx.ver = trx.hdrVer ∧ rx.fn = msg.fn ∧ rx.tn = msg.tn) := by
+  rw [clockStep_fwd s hpc]
+  refine ⟨rfl, rfl, rfl, fun rx => ?_, fun rx h => ?_⟩
+  · rw [← fwdRead_some_iff]
+    simp only []
+    split
+    · next h => simp [h]
+    · next h => simp [h]
+    · next rx' h => simp [h]
+  · simp only [] at h
+    split at h
+    · cases h
+    · cases h
+    · next rx' hr =>
+      injection h with _ _ _ _ _ _ h7
+      subst h7
+      obtain ⟨-, trx, htrx, -, -, htr⟩ := (fwdRead_some_iff _ _ _ _ _ _ _).mp hr
+      exact ⟨trx, htrx, trans_hdr htr⟩
+
+/-- `handle_uses_what_was_read` — what the code does when the recipient is powered off, retuned or
+re-versioned BETWEEN the reads and the call.  Recipient `k` has passed the checks of `fwd-read` in state
+`s` (it was running, on the sender's frequency, header version `trx.hdrVer`); then the socket thread
+executes any operations `xs` (POWEROFF / RXTUNE / SETFORMAT of `k`, anything), then the clock thread
+goes on.  The control state is still `hdl … k rx …` with the `rx` built BEFORE `xs` (header version
+`rx.ver` = the version read earlier, not the current one); the next clock action is exactly
+`k.handle_data_msg(j, msg, rx)` on the world as it is AFTER `xs` — `running`, the frequency and the
+header version of `k` are not looked at again — and whatever that call does (datagram to `k`'s L1
+with the old header version, NOPE, nothing, or an exception that ends the clock thread) it touches no
+transmit queue and no power state: the outcomes of C03 (emitted / stale / cleared / still queued) of
+every transceiver are what they were. -/
+theorem handle_uses_what_was_read (s : State) (xs : List Act) (hx : ∀ a ∈ xs, a ≠ Act.clk)
+    (fn j mfn k : Nat) (msg : Trxd.TxMsg) (txFreq : Option Int) (ks : List Nat) (emit drop : List Trxd.TxMsg)
+    (js : List Nat) (hpc : s.pc = Pc.fwd fn j msg mfn txFreq (k :: ks) emit drop js)
+    (trx : Trx) (rx : Trxd.RxMsg) (hk : k ≠ j) (htrx : s.w.trxs[k]? = some trx) (hrun : trx.running = true)
+    (hfreq : trx.getRxFreq mfn = .ok txFreq) (htr : msg.trans (some trx.hdrVer) = .ok rx) :
+    (exec s (Act.clk :: xs)).pc = Pc.hdl fn j msg mfn txFreq k rx ks emit drop js ∧
+    (exec s (Act.clk :: xs)).out = s.out ∧ (exec s (Act.clk :: xs)).stale = s.stale ∧
+    rx.ver = trx.hdrVer ∧ rx.fn = msg.fn ∧
+    exec s (Act.clk :: xs ++ [Act.clk]) =
+      (match handleDataMsg (exec s (Act.clk :: xs)).w k j msg rx with
+       | .error e => { exec s (Act.clk :: xs) with pc := Pc.dead e }
+       | .ok (w, ds) => { exec s (Act.clk :: xs) with
+                          w := w, out := s.out ++ ds, pc := Pc.fwd fn j msg mfn txFreq ks emit drop js }) ∧
+    (∀ w ds, handleDataMsg (exec s (Act.clk :: xs)).w k j msg rx = .ok (w, ds) →
+      ∀ i, queueOf w i = queueOf (exec s (Act.clk :: xs)).w i ∧
+           runningOf w i = runningOf (exec s (Act.clk :: xs)).w i) := by
+  have hrd : fwdRead s.w j msg mfn txFreq k = .ok (some rx) :=
+    (fwdRead_some_iff _ _ _ _ _ _ _).mpr ⟨hk, trx, htrx, hrun, hfreq, htr⟩
+  have h1 : clockStep s = { s with pc := Pc.hdl fn j msg mfn txFreq k rx ks emit drop js } := by
+    rw [clockStep_fwd s hpc, hrd]
+  obtain ⟨hv, hfn, -⟩ := trans_hdr htr
+  have hexec : exec s (Act.clk :: xs) = exec (clockStep s) xs := rfl
+  obtain ⟨k1, k2, k3⟩ := exec_sock_keeps xs (clockStep s) hx
+  have g1 : (exec s (Act.clk :: xs)).pc = Pc.hdl fn j msg mfn txFreq k rx ks emit drop js := by
+    rw [hexec, k1, h1]
+  have g2 : (exec s (Act.clk :: xs)).out = s.out := by rw [hexec, k2, h1]
+  have g3 : (exec s (Act.clk :: xs)).stale = s.stale := by rw [hexec, k3, h1]
+  refine ⟨g1, g2, g3, hv, hfn, ?_, ?_⟩
+  · rw [show Act.clk :: xs ++ [Act.clk] = (Act.clk :: xs) ++ [Act.clk] from rfl, exec_snoc]
+    show clockStep (exec s (Act.clk :: xs)) = _
+    rw [clockStep_hdl _ g1]
+    cases handleDataMsg (exec s (Act.clk :: xs)).w k j msg rx with
+    | error e => rfl
+    | ok v => obtain ⟨w, ds⟩ := v; simp only [g2]
+  · intro w ds h i
+    have := handleDataMsg_sameQ h
+    exact ⟨this.queueOf i, this.runningOf i⟩
+
 /-- The interleaving semantics refines the sequential model: a tick of the clock thread that is not
 interleaved with socket operations, and that no exception leaves, is exactly `World.tick` — same
 world, same datagrams, same number of stale reports. -/
@@ -595,36 +679,42 @@ open OsmoVerif.World.Sched
 example : Initial 0 (demoState 100) ∧ Initial 1 (demoState 100) :=
   ⟨⟨rfl, by decide +kernel⟩, ⟨rfl, by decide +kernel⟩⟩
 
-/-- a tick without interference: after the three arrivals and 13 clock actions the clock thread is
-idle again, with the same outcomes as the sequential tick -/
+/-- a tick without interference: after the three arrivals and 14 clock actions (begin | read, locked
+section of transceiver 0 | fwd-begin, fwd-read of 0 (itself), fwd-read of 1, fwd-handle of 1, fwd-end |
+stale | done | read, locked section, done of transceiver 1 | incr) the clock thread is idle again, with
+the same outcomes as the sequential tick; not before -/
 example :
-    (exec (demoState 100) (demoArrivalActs ++ clks 13)).pc = Pc.idle ∧
-    (sghost (demoState 100) (demoArrivalActs ++ clks 13) 0).g.log =
+    (exec (demoState 100) (demoArrivalActs ++ clks 14)).pc = Pc.idle ∧
+    (exec (demoState 100) (demoArrivalActs ++ clks 13)).pc = Pc.next 100 [] ∧
+    (sghost (demoState 100) (demoArrivalActs ++ clks 14) 0).g.log =
       (ghost (demoWorld 100) (demoArrivals ++ [Op.tick]) 0).log ∧
-    (sghost (demoState 100) (demoArrivalActs ++ clks 13) 0).g.ids = [2] ∧
-    (exec (demoState 100) (demoArrivalActs ++ clks 13)).w.clkSrc = some 101 ∧
-    (exec (demoState 100) (demoArrivalActs ++ clks 13)).stale = 1 := by
+    (sghost (demoState 100) (demoArrivalActs ++ clks 14) 0).g.ids = [2] ∧
+    (exec (demoState 100) (demoArrivalActs ++ clks 14)).w.clkSrc = some 101 ∧
+    (exec (demoState 100) (demoArrivalActs ++ clks 14)).out = (tick (run (demoWorld 100) demoArrivals).1).out ∧
+    (exec (demoState 100) (demoArrivalActs ++ clks 14)).stale = 1 := by
   decide +kernel
 
 /-- POWEROFF racing the tick, after the locked section (3 clock actions: begin, read `running`,
 locked section): the waiting burst 2 is cleared, the due burst 0 is STILL emitted in frame 100 and
 forwarded to the peer (one datagram), the passed burst 1 is still reported stale; transceiver 0 is
-not running any more -/
+not running any more; the tick is over after 11 more clock actions -/
 example :
     (exec (demoState 100) (demoArrivalActs ++ clks 3)).pc = Pc.loop 100 0 [demoMsg 100] [demoMsg 90] [1] ∧
-    (sghost (demoState 100) (demoArrivalActs ++ clks 3 ++ [Act.ctrl 0 5800 demoPoweroff] ++ clks 12) 0).g.log.drop 3 =
+    (sghost (demoState 100) (demoArrivalActs ++ clks 3 ++ [Act.ctrl 0 5800 demoPoweroff] ++ clks 11) 0).g.log.drop 3 =
       [Event.cleared 2, Event.emitted 0 100, Event.stale 1 100] ∧
-    (exec (demoState 100) (demoArrivalActs ++ clks 3 ++ [Act.ctrl 0 5800 demoPoweroff] ++ clks 12)).out.length = 1 ∧
-    runningOf (exec (demoState 100) (demoArrivalActs ++ clks 3 ++ [Act.ctrl 0 5800 demoPoweroff] ++ clks 12)).w 0 = false := by
+    (exec (demoState 100) (demoArrivalActs ++ clks 3 ++ [Act.ctrl 0 5800 demoPoweroff] ++ clks 11)).pc = Pc.idle ∧
+    (exec (demoState 100) (demoArrivalActs ++ clks 3 ++ [Act.ctrl 0 5800 demoPoweroff] ++ clks 11)).out.length = 1 ∧
+    runningOf (exec (demoState 100) (demoArrivalActs ++ clks 3 ++ [Act.ctrl 0 5800 demoPoweroff] ++ clks 11)).w 0 = false := by
   decide +kernel
 
 /-- POWEROFF racing the tick, between the read of `running` and the locked section: everything is
-cleared, the locked section finds an empty queue, nothing is emitted -/
+cleared, the locked section finds an empty queue, nothing is emitted (6 more clock actions) -/
 example :
     (exec (demoState 100) (demoArrivalActs ++ clks 2)).pc = Pc.lock 100 0 [1] ∧
-    (sghost (demoState 100) (demoArrivalActs ++ clks 2 ++ [Act.ctrl 0 5800 demoPoweroff] ++ clks 12) 0).g.log.drop 3 =
+    (sghost (demoState 100) (demoArrivalActs ++ clks 2 ++ [Act.ctrl 0 5800 demoPoweroff] ++ clks 6) 0).g.log.drop 3 =
       [Event.cleared 0, Event.cleared 1, Event.cleared 2] ∧
-    (exec (demoState 100) (demoArrivalActs ++ clks 2 ++ [Act.ctrl 0 5800 demoPoweroff] ++ clks 12)).out.length = 0 := by
+    (exec (demoState 100) (demoArrivalActs ++ clks 2 ++ [Act.ctrl 0 5800 demoPoweroff] ++ clks 6)).pc = Pc.idle ∧
+    (exec (demoState 100) (demoArrivalActs ++ clks 2 ++ [Act.ctrl 0 5800 demoPoweroff] ++ clks 6)).out.length = 0 := by
   decide +kernel
 
 /-- an arrival racing the tick: the burst for frame 100 arrives after the locked section of tick
@@ -640,6 +730,74 @@ example :
     (sghost (demoState 100) (clks 2 ++ [Act.data 0 (demoBurst 100)] ++ clks 11) 0).g.log =
       [Event.accepted 2 (demoMsg 100), Event.emitted 2 100] := by
   decide +kernel
+
+/-- the recipient is POWERED OFF between the reads and the call (6 clock actions: the clock thread is
+about to call `handle_data_msg` of transceiver 1): the burst is still delivered to transceiver 1's L1
+(one datagram from its DATA port 6702) although transceiver 1 is not running any more; the same
+POWEROFF one action earlier (before the reads): nothing is delivered.  The outcomes of the sender are
+the same in both schedules (emitted in frame 100, stale, one burst still queued). -/
+example :
+    (exec (demoState 100) (demoArrivalActs ++ clks 6)).pc =
+      Pc.hdl 100 0 (demoMsg 100) 100 (some 935000000) 1
+        { Trxd.RxMsg.fresh with fn := some 100, tn := some 0, burst := some (List.replicate 148 (-127)) }
+        [] [] [demoMsg 90] [1] ∧
+    (exec (demoState 100) (demoArrivalActs ++ clks 6 ++ [Act.ctrl 1 6800 demoPoweroff] ++ clks 6)).pc = Pc.idle ∧
+    (exec (demoState 100) (demoArrivalActs ++ clks 6 ++ [Act.ctrl 1 6800 demoPoweroff] ++ clks 6)).out.map
+      (fun d => (d.lport, d.rport, d.data.take 6)) = [(6702, 6802, [0, 0, 0, 0, 100, 70])] ∧
+    runningOf (exec (demoState 100) (demoArrivalActs ++ clks 6 ++ [Act.ctrl 1 6800 demoPoweroff] ++ clks 6)).w 1 = false ∧
+    (exec (demoState 100) (demoArrivalActs ++ clks 5 ++ [Act.ctrl 1 6800 demoPoweroff] ++ clks 6)).pc = Pc.idle ∧
+    (exec (demoState 100) (demoArrivalActs ++ clks 5 ++ [Act.ctrl 1 6800 demoPoweroff] ++ clks 6)).out = [] ∧
+    (sghost (demoState 100) (demoArrivalActs ++ clks 6 ++ [Act.ctrl 1 6800 demoPoweroff] ++ clks 6) 0).g.log =
+      (sghost (demoState 100) (demoArrivalActs ++ clks 5 ++ [Act.ctrl 1 6800 demoPoweroff] ++ clks 6) 0).g.log ∧
+    (sghost (demoState 100) (demoArrivalActs ++ clks 6 ++ [Act.ctrl 1 6800 demoPoweroff] ++ clks 6) 0).g.ids = [2] ∧
+    (sghost (demoState 100) (demoArrivalActs ++ clks 5 ++ [Act.ctrl 1 6800 demoPoweroff] ++ clks 6) 0).g.ids = [2] ∧
+    (sghost (demoState 100) (demoArrivalActs ++ clks 6 ++ [Act.ctrl 1 6800 demoPoweroff] ++ clks 6) 0).g.log.drop 3 =
+      [Event.emitted 0 100, Event.stale 1 100] := by
+  decide +kernel
+
+/-- the recipient is RE-VERSIONED (SETFORMAT 1) between the reads and the call: the datagram goes out
+with the header version read earlier (octet 0 = 0x00, 158 octets: version 0) although transceiver 1's
+header version is 1 by then; one action earlier the datagram has a version-1 header (octet 0 = 0x10,
+159 octets) -/
+example :
+    (exec (demoState 100) (demoArrivalActs ++ clks 6 ++ [Act.ctrl 1 6800 demoSetformat1] ++ clks 8)).pc = Pc.idle ∧
+    (exec (demoState 100) (demoArrivalActs ++ clks 6 ++ [Act.ctrl 1 6800 demoSetformat1] ++ clks 8)).out.map
+      (fun d => (d.lport, d.data.take 1, d.data.length)) = [(6702, [0], 158)] ∧
+    (exec (demoState 100) (demoArrivalActs ++ clks 6 ++ [Act.ctrl 1 6800 demoSetformat1] ++ clks 8)).w.trxs.map
+      (fun t => t.hdrVer) = [0, 1] ∧
+    (exec (demoState 100) (demoArrivalActs ++ clks 5 ++ [Act.ctrl 1 6800 demoSetformat1] ++ clks 9)).pc = Pc.idle ∧
+    (exec (demoState 100) (demoArrivalActs ++ clks 5 ++ [Act.ctrl 1 6800 demoSetformat1] ++ clks 9)).out.map
+      (fun d => (d.lport, d.data.take 1, d.data.length)) = [(6702, [16], 159)] := by
+  decide +kernel
+
+/-- the recipient is RETUNED (RXTUNE away from the sender's frequency) between the reads and the call:
+the burst is still delivered; one action earlier it is not -/
+example :
+    (exec (demoState 100) (demoArrivalActs ++ clks 6 ++ [Act.ctrl 1 6800 demoRxtune] ++ clks 8)).pc = Pc.idle ∧
+    (exec (demoState 100) (demoArrivalActs ++ clks 6 ++ [Act.ctrl 1 6800 demoRxtune] ++ clks 8)).out.length = 1 ∧
+    (exec (demoState 100) (demoArrivalActs ++ clks 6 ++ [Act.ctrl 1 6800 demoRxtune] ++ clks 8)).w.trxs.map
+      (fun t => t.rxFreq) = [some 890000000, some 890000000] ∧
+    (exec (demoState 100) (demoArrivalActs ++ clks 5 ++ [Act.ctrl 1 6800 demoRxtune] ++ clks 8)).pc = Pc.idle ∧
+    (exec (demoState 100) (demoArrivalActs ++ clks 5 ++ [Act.ctrl 1 6800 demoRxtune] ++ clks 8)).out = [] := by
+  decide +kernel
+
+/-- the hypotheses of `handle_uses_what_was_read` are satisfiable: the clock thread is about to do the
+reads for recipient 1 of the burst of transceiver 0; POWEROFF of transceiver 1 runs between the reads and
+the call; the control state is still `hdl` with the version-0 message built before -/
+example :
+    (exec ⟨demoWorld 100, Pc.fwd 100 0 (demoMsg 100) 100 (some 935000000) [1] [] [] [1], [], 0, []⟩
+      (Act.clk :: [Act.ctrl 1 6800 demoPoweroff])).pc =
+      Pc.hdl 100 0 (demoMsg 100) 100 (some 935000000) 1
+        { Trxd.RxMsg.fresh with fn := some 100, tn := some 0, burst := some (List.replicate 148 (-127)) }
+        [] [] [] [1] :=
+  (handle_uses_what_was_read
+    ⟨demoWorld 100, Pc.fwd 100 0 (demoMsg 100) 100 (some 935000000) [1] [] [] [1], [], 0, []⟩
+    [Act.ctrl 1 6800 demoPoweroff] (by intro a ha; cases ha with | head => exact Act.noConfusion | tail _ h => cases h)
+    100 0 100 1 (demoMsg 100) (some 935000000) [] [] [] [1] rfl
+    { addr := 2, basePort := 6700, childIdx := 0, childMgt := false, hasClock := true,
+      running := true, rxFreq := some 935000000, txFreq := some 890000000 }
+    { Trxd.RxMsg.fresh with fn := some 100, tn := some 0, burst := some (List.replicate 148 (-127)) }
+    (by decide) rfl rfl rfl (by decide +kernel)).1
 
 /-- the wrap under the interleaving semantics: clock 2715647, burst for FN 0 -/
 example :
